@@ -239,3 +239,23 @@ Example scale_model_ex :
   Resultant.resultant Checked f g = (true, Done 54%Z) /\
   Resultant.resultant Checked (List.map (Z.mul (-3)) f) (List.map (Z.mul 2) g) = (true, Done (9 * 4 * 54)%Z).
 Proof. split; vm_compute; reflexivity. Qed.
+
+(** ** Fifth wave: the scaling law of the RATIONAL routine as a statement about two runs of the model. *)
+From RNT.Refine Require Import W5ResScale.
+
+(** [P] [resultant_rational_scale_model]: for canonical non-zero f, g over Q and non-zero rationals s, t, in either
+    mode: both runs return, and resultant_rational (s f) (t g) = s^deg g * t^deg f * resultant_rational f g. *)
+Theorem resultant_rational_scale_model : forall m (f g : seq Qc) (s t : Qc),
+  qcanonb f = true -> qcanonb g = true -> len_ok f = true -> len_ok g = true ->
+  f <> [::] -> g <> [::] -> s != 0 -> t != 0 ->
+  exists v, resultant_rational m f g = Done v /\
+    resultant_rational m (List.map (Qcmult s) f) (List.map (Qcmult t) g) =
+      Done (s ^+ (size g).-1 * t ^+ (size f).-1 * v).
+Proof. exact W5ResScale.resultant_rational_scale_model. Qed.
+Example rational_scale_ex :
+  let f := [Q2Qc (1 # 2); Q2Qc 3; Q2Qc (5 # 7)] in let g := [Q2Qc 2; Q2Qc (-1 # 3)] in
+  let s := Q2Qc (-3) in let t := Q2Qc (2 # 5) in
+  exists v w, resultant_rational Checked f g = Done v /\
+    resultant_rational Checked (List.map (Qcmult s) f) (List.map (Qcmult t) g) = Done w /\
+    Qeq_bool w (Qcmult (Qcmult s (Qcmult t t)) v) = true /\ Qeq_bool v (Q2Qc (619 # 126)) = true.
+Proof. do 2 eexists; split; [vm_compute; reflexivity | split; [vm_compute; reflexivity | split; vm_compute; reflexivity]]. Qed.
